@@ -152,6 +152,24 @@ structure EnvOK (env : Env) : Prop where
   rest_host : ∀ s u, env.urlParse s = some u → u.scheme ≠ [] → u.host ≠ [] → env.restHostOK s = true
   lower_idem : ∀ s, env.lower (env.lower s) = env.lower s
 
+/-- `int32` -/
+def isInt32 (x : Int) : Bool := -2147483648 ≤ x && x ≤ 2147483647
+
+/-- the numbers of the schema are `int32` values (a typing fact of the Go object; the model's `Int` is unbounded) -/
+def wellTyped (s : Schema) : Bool :=
+  (match s.maxRequestsInflight with
+    | some m => isInt32 m
+    | none => true) &&
+  (match s.tokenBucket with
+    | some t => isInt32 t.qps && isInt32 t.burst
+    | none => true) &&
+  (match s.globalMaxRequestsInflight with
+    | some m => isInt32 m
+    | none => true) &&
+  (match s.globalTokenBucket with
+    | some t => isInt32 t.qps && isInt32 t.burst
+    | none => true)
+
 /-- the limiter sizes an accepted schema asks for -/
 def expectedLocal (s : Schema) : Option FlowCtl :=
   match shapeOf s with
@@ -167,5 +185,12 @@ def expectedGlobal (s : Schema) : Option GlobalFC :=
   | some (.maxInflightGlobal _ g) => some ⟨.maxRequestsInflight, g, 0⟩
   | some (.tokenBucketGlobal _ g) => some ⟨.tokenBucket, g.qps, g.burst⟩
   | _ => none
+
+/-- the gateway's flow-control cache entry a freshly applied accepted schema must produce: limiter of the
+    configured type and size, the schema as local configuration, no remote limiter yet -/
+def entryOf (s : Schema) : Str × FlowControlCache := (s.name, ⟨expectedLocal s, s, none⟩)
+
+/-- the limiter server's entry for a schema with a global member -/
+def hasGlobal (s : Schema) : Bool := s.globalTokenBucket.isSome || s.globalMaxRequestsInflight.isSome
 
 end KG.Spec.Validate
